@@ -116,6 +116,8 @@ func (t *RawTarget) serve(c net.Conn) {
 			c.Write(okResponse(200, body, longTok))
 		case letter == "notjson":
 			c.Write(okResponse(200, "<<<tok: this is { not json", longTok))
+		case letter == "jsonarr":
+			c.Write(okResponse(200, `["tok", 1, {"tok": "nested"}]`, longTok))
 		case letter == "nothtml":
 			c.Write(okResponse(200, "\x00\x01\xff\xfe<<<>>>&&&;\x00<div id=<a<b", longTok))
 		case letter == "shorthdr":
